@@ -489,6 +489,9 @@ impl<B: Borrow<[u64; BITMAP_LENGTH]>> BitmapIter<B> {
                 } else if cmp == Ordering::Equal {
                     self.value_back
                 } else {
+                    // new_key is past the back cursor: nothing remains
+                    self.key = self.key_back;
+                    self.value = 0;
                     self.value_back = 0;
                     return;
                 }
